@@ -13,6 +13,22 @@ CLAIMS = {
         note="Trusted: Coq kernel, extraction (ExtrOcamlBasic), dump_params, drivers. Modelled not verified: segment allocation/first-block election/"
              "table extension and allocation-failure handling (exercised only by the real-thread oracle runs).",
         ref="4/C11"),
+    "C13": dict(
+        technique="Coq proof (induction over both passes of handle_operations) over an executable model; differential correspondence with the real handle_operations and public API; spec-level linearizability oracle",
+        text="Theorems batch_accounting (every op of a batch answered exactly once; size changes by successful pushes minus pops; mark = size after every batch) "
+             "and pop_fails_only_when_empty are proved for every queue state and every batch. The model (both passes, heapify, reheap) is compared with the real "
+             "handle_operations on the exact data array after every batch; a brute-force priority-queue linearizability oracle decides violations.",
+        note="Partial: the heap-order invariant (a successful pop returns a maximum) is not yet a theorem — it is checked by the oracle on every compared case. "
+             "Not modelled: aggregator CAS/handler election, throwing element copies (the unguarded pop-side assignment is a recorded defect, see DESIGN.md 8(d)).",
+        ref="4/C13"),
+    "C08": dict(
+        technique="Coq proof of an inductive invariant over all interleavings (N threads) of an access-level small-step model; step-level correspondence with the real lock under a deterministic atomic-access gate",
+        text="spin_rw_mutex: mutual exclusion (writer excludes writers and readers) and state-word consistency are proved for any number of threads, any scripts over all "
+             "eight operations incl. upgrade/downgrade and any interleaving of the individual atomic accesses. The real spin_rw_mutex.h runs under a force-included "
+             "std::atomic prelude so that it executes exactly a given interleaving; its event trace (access kind, memory order, values, results) must equal the model's.",
+        note="SC only (memory orders are compared, not proved necessary). Not yet modelled: spin_mutex, queuing_mutex, queuing_rw_mutex, mutex/rw_mutex waiting, RTM variants; "
+             "upgrade-truthfulness and no-lost-hand-off are checked by the harness oracle (critical-section bookkeeping, round-robin completion), not yet theorems.",
+        ref="4/C08"),
 }
 
 REASONS_TODO = "check not built yet in this round; the design (DESIGN.md section 4) applies and it is planned — listed here only because no check is registered"
